@@ -31,5 +31,11 @@ def obligations(tier):
                     'endpoints on the given clock times (an unmarked one may move by 12 h), and the PT..H..M written in the TIMEX equals end - start (past midnight included)',
               bounds='every h:m for both endpoints (1..12 when unmarked), any reference date 1950..2090 (day <= 28); equal explicit endpoints excluded',
               encodes=[B + 'base_timeperiod:BaseTimePeriodParser.merge_two_time_points'],
-              stubs=['time extractor returns two fixed spans', 'time parser returns the symbolic clock time on the reference date with its TIMEX and ampm mark (C07 decides the real one)'])]
+              stubs=['time extractor returns two fixed spans', 'time parser returns the symbolic clock time on the reference date with its TIMEX and ampm mark (C07 decides the real one)']),
+           Ob('O10.6-datetime-points', 'sx', 'harness.C10b:h_datetime_points', twin='harness.C10b:t_datetime_points', slices=[{'mode': m} for m in ('both', 'begin', 'end')], timeout=t,
+              descr='"from <date-time> to <date-time>" (and with a bare clock time on one side, which takes the other side\'s date): BaseDateTimePeriodParser.merge_two_time_points '
+                    'resolves to exactly the endpoints and the PT.. duration of the TIMEX equals end - start',
+              bounds='begin = every minute of every day 1900..2086; end = begin + 1..20000 minutes (both sides dated) or any clock time later on that day (one side dated)',
+              encodes=[B + 'base_datetimeperiod:BaseDateTimePeriodParser.merge_two_time_points', B + 'utilities:DateTimeFormatUtil.luis_time_span'],
+              stubs=['date-time / time extractors return fixed spans; their parsers return the symbolic instants with their TIMEX (C06/C07 decide the real ones)'])]
     return obs
